@@ -521,6 +521,71 @@ def _defective_case(args):
     return out, 1
 
 
+def _basin_only_case(args):
+    """A file that stores no feature of its own (or only non-scalar ones)
+    and gets everything through a basin: its copies keep the basin
+    definitions, logs and metadata."""
+    task, own, seed, scratch = args
+    import dclab
+    from dclab import cli
+    from dclab.rtdc_dataset.writer import RTDCWriter
+    d = scratch / f"c08_bo_{task}_{own}_{os.getpid()}"
+    if d.exists():
+        shutil.rmtree(d)
+    d.mkdir()
+    out = []
+    case = {"kind": "basin-only", "task": task, "own": own, "seed": seed}
+    where = f"dclab.cli.task_{task}:{task}"
+    tags = {"task": task, "basin_only": True}
+    try:
+        ev = gen.make_events(N, seed=seed, special=False,
+                             feats=["deform", "area_um", "image",
+                                    "index_online"])
+        origin = d / "origin.rtdc"
+        gen.write_rtdc(origin, ev, meta=gen.complete_meta(N, fl=False))
+        src = d / "in.rtdc"
+        with RTDCWriter(src, mode="reset") as hw:
+            hw.store_metadata(gen.complete_meta(N, fl=False))
+            if own == "image":
+                hw.store_feature("image", ev["image"])
+            hw.store_basin("vf-origin", "file", "hdf5", [str(origin)])
+            hw.store_log("vf-log", ["a line", "another"])
+        before = sha(src)
+        o = d / "out.rtdc"
+        getattr(cli, task)(path_in=src, path_out=o)
+        if sha(src) != before:
+            out.append(violation(where, "input-modified", case, "", tags))
+        out += compare_h5(src, o, case, tags, where,
+                          scalar_only=(task == "condense"))
+        # through dclab (a file without an events group cannot be opened)
+        with h5py.File(o, "r") as h5:
+            openable = "events" in h5 or task != "repack"
+        if openable:
+            try:
+                with dclab.new_dataset(o) as do:
+                    for f in ("deform", "area_um"):
+                        if f not in do or not gen.arrays_equal(do[f][:],
+                                                               ev[f]):
+                            out.append(violation(
+                                where, "feature-missing", case,
+                                f"{f} (provided by the basin of the input) "
+                                f"is not available from the {task} output",
+                                dict(tags, feat=f)))
+            except BaseException as e:
+                if own == "image":
+                    out.append(violation(
+                        where, "exception", case,
+                        f"output not loadable: {type(e).__name__}: {e}",
+                        dict(tags, exc=type(e).__name__)))
+    except BaseException as e:
+        out.append(violation(where, "exception", case,
+                             f"{type(e).__name__}: {e}",
+                             dict(tags, exc=type(e).__name__)))
+    finally:
+        shutil.rmtree(d, ignore_errors=True)
+    return out, 1
+
+
 def _collision_case(args):
     """The input is never modified -- also when the output path names the
     input itself (in whatever spelling): the task may refuse, the input
@@ -604,7 +669,11 @@ def run(ctx):
                           "zstd9-big")]
     for vs, nc in par.pmap(_task_case, items) + par.pmap(
             _tdms_case, titems) + par.pmap(_collision_case, citems) \
-            + par.pmap(_defective_case, ditems):
+            + par.pmap(_defective_case, ditems) \
+            + par.pmap(_basin_only_case, [
+                (t, own, ctx.seed, scratch)
+                for t in ("compress", "repack", "condense")
+                for own in ("none", "image")]):
         viols.extend(vs)
         nontriv += nc > 0
         compared += nc
@@ -645,6 +714,9 @@ def replay(case, ctx):
     if case.get("kind") == "big":
         from .. import big
         return big.violations("C08", ctx.scratch)
+    if case["kind"] == "basin-only":
+        return _basin_only_case((case["task"], case["own"], case["seed"],
+                                 ctx.scratch))[0]
     if case["kind"] == "defective":
         return _defective_case((case["task"], case["layout"], case["seed"],
                                 ctx.scratch))[0]
